@@ -11,6 +11,7 @@ import WebpVerif.Lemmas.ColorIndex
 import WebpVerif.Lemmas.CodeRead
 import WebpVerif.Lemmas.StreamCong
 import WebpVerif.Lemmas.LPred
+import WebpVerif.Lemmas.LCompose
 
 /-!
 # C01 — VP8L decoding matches the lossless specification for every valid stream
@@ -419,6 +420,16 @@ theorem color_transform_is_spec (w h bits : Nat) (d a : Array Nat) (hb : LTrProo
 theorem subtract_green_is_spec (a : Array Nat) (hb : LTrProof.Bytes a) (h4 : a.size % 4 = 0) :
     LTrProof.pixels (LTr.applySubGreen a) = (LTrProof.pixels a).map VP8LP.invSubGreenPx :=
   LTrProof.subGreen_is_spec a hb h4
+
+/-- **any sequence of the predictor / colour / subtract-green drivers, applied one after the other
+    to the same buffer, computes the specification's `applyT`** (the inverse transforms in stream
+    order reversed): each driver leaves bytes and the buffer size as it found them, so the three
+    driver theorems chain for every list of transforms, sub-images with modes 0..13 and buffer. -/
+theorem transform_drivers_compose (w h : Nat) (hw : 0 < w) (hh : 0 < h) (ts : List LTrProof.TB) (a : Array Nat)
+    (hg : ∀ t, t ∈ ts → LTrProof.GoodT t) (hb : LTrProof.Bytes a) (hs : a.size = 4 * (w * h)) :
+    LTrProof.pixels (LTrProof.applyTB w h ts a) = VP8LP.applyT w h (ts.map LTrProof.specT) w (LTrProof.pixels a) :=
+  LTrProof.drivers_compose w h hw hh ts a hg hb hs
+
 
 theorem bytes_of_all (a : Array Nat) (h : a.toList.all (· < 256) = true) : LTrProof.Bytes a := by
   intro i
